@@ -54,6 +54,16 @@ func (h *recHook) OnDispatchStart(ctx context.Context, info vgirpc.DispatchInfo)
 	defer h.mu.Unlock()
 	h.next++
 	h.events = append(h.events, hookEvent{Kind: "start", Call: call, Token: h.next, Method: info.Method})
+	if h.panicOn != nil {
+		switch {
+		case h.panicOn("nilctx", call):
+			// a start that returns normally without a context of its own
+			return nil, h.next
+		case h.panicOn("derived", call):
+			type hookKey struct{}
+			return context.WithValue(ctx, hookKey{}, h.next), h.next
+		}
+	}
 	return ctx, h.next
 }
 
@@ -127,7 +137,7 @@ func genC37(t *rapid.T) c37Case {
 			call.Opts.ProtocolVersion = &v
 		}
 		c.Calls = append(c.Calls, call)
-		c.Panics = append(c.Panics, []string{"", "", "", "start", "end"}[rapid.IntRange(0, 4).Draw(t, "panic")])
+		c.Panics = append(c.Panics, []string{"", "", "", "start", "end", "nilctx", "derived"}[rapid.IntRange(0, 6).Draw(t, "panic")])
 	}
 	return c
 }
@@ -243,7 +253,9 @@ func runC37(c c37Case) (out lib.Outcome) {
 	anyPanic, anyFail := false, false
 	for i, p := range c.Panics {
 		panicFor[fmt.Sprintf("call-%d", i)] = p
-		if p != "" {
+		if p == "nilctx" || p == "derived" {
+			out.Label("hook-start-ctx:" + p)
+		} else if p != "" {
 			anyPanic = true
 			out.Label("hook-panic:" + p)
 		}
@@ -428,7 +440,7 @@ var propC37 = lib.Prop[c37Case]{
 		"Oracle: responses identical to the same history without a hook; per dispatch at most one start; a start that returned has exactly one end with its token; for dispatched calls end's err != nil iff the response carries an exception / error status. Non-trivial: >=3 calls with a failing call or a panicking hook.",
 	Gen:          genC37,
 	Run:          runC37,
-	Essential:    []string{"transport:pipe", "transport:http", "hook-panic:start", "hook-panic:end", "failing-call",
+	Essential:    []string{"transport:pipe", "transport:http", "hook-panic:start", "hook-panic:end", "hook-start-ctx:nilctx", "hook-start-ctx:derived", "failing-call",
 		"start-seen:pipe:unary", "start-seen:pipe:stream", "start-seen:http:unary", "start-seen:http:stream"},
 	EssentialMin: 200,
 }
